@@ -463,6 +463,9 @@ func (m *monitor) checkAcked(n int, term int64, lg []entry) {
 		if int(a.off) < len(lg) {
 			have = lg[a.off].tok()
 		}
+		violMu.Lock()
+		c.lost = true
+		violMu.Unlock()
 		detail := fmt.Sprintf("%s was acknowledged in term %d at offset %d (entry %d.%d); node %d is LEADER in term %d with log %s and has %s at that offset",
 			a.o, a.term, a.off, mterm(a.term), a.vid, n, term, logTok(lg), have)
 		// classification: the only surviving copies sat on a node that the election consulted for the
@@ -474,6 +477,13 @@ func (m *monitor) checkAcked(n int, term int64, lg []entry) {
 				detail += fmt.Sprintf("; the removed node %d answered NewTerm(%d) with a log containing it, counted for the majority, not as a candidate", x, term)
 				break
 			}
+		}
+		if sig == "acked-write-lost" && len(m.termRemoved[term]) > 0 {
+			// the election that produced this leader ran during a swap: its majority was counted over ensemble + removed
+			// nodes %v, so it need not intersect the quorum that acknowledged the write in the old ensemble
+			sig = "swap:election-majority-over-merged-set-misses-ack-quorum"
+			detail += fmt.Sprintf("; the election of term %d ran during a swap: its NewTerm majority is counted over the new ensemble plus the removed nodes %v, which does not have to intersect the quorum of the old ensemble that acknowledged the write",
+				term, m.termRemoved[term])
 		}
 		if sig == "acked-write-lost" {
 			for x, dl := range m.deletedLogs {
